@@ -27,7 +27,7 @@ def run(tier, seed):
     asts += g_asts
     progs = runner.compile_programs(items, want=('machine', 'codegen'))
     pairs = [(p, a) for p, a in zip(progs, asts) if p.ok and 'wait' in p.src]
-    st, kinds, cases = c01.run_conform(chk, pairs, 9 if quick else 13, 400 if quick else 3000, 'wait')
+    st, kinds, cases = c01.run_conform(chk, pairs, 9 if quick else 13, 1600 if quick else 9000, 'wait')
     from props import c06
     cs = c06.c_stage(chk, [p for p, a in pairs][::4 if quick else 2], rng, 2, 'wait program')
     chk.coverage = {
